@@ -4,12 +4,18 @@
    with sentinel traffic) and to a FRESH one.  HistoryIndependence: both
    decoded it identically (same replies, same request seen by the handler /
    same reply or rejection seen by the caller).  NoForeignRecord: nothing of
-   the sentinel traffic shows up in what the warm instance decoded or sent.   *)
+   the sentinel traffic shows up in what the warm instance decoded or sent.
+   A `burst` line is one round of concurrent traffic of several clients through
+   one receive path: NoForeignRecord for requests in flight at the same time. *)
 EXTENDS Naturals, Sequences, TLC, Json
 
 VARIABLE l
 Trace == ndJsonDeserialize("trace.ndjson")
-Reasons(e) == (IF e.same THEN {} ELSE {"warm and fresh instance decode the same bytes differently"})
+Reasons(e) == IF e.burst
+              THEN (IF e.same THEN {} ELSE {"a client received a reply that does not answer one of its own queries"})
+                   \cup (IF e.leak THEN {"the handler decoded a message that no client sent"} ELSE {})
+              ELSE
+              (IF e.same THEN {} ELSE {"warm and fresh instance decode the same bytes differently"})
               \cup (IF e.leak THEN {"data of earlier traffic appears in the decoded message or in a reply"} ELSE {})
 TraceInit == l = 1
 TraceNext == /\ l <= Len(Trace) /\ l' = l + 1
